@@ -385,10 +385,15 @@ impl Gen {
                     3 => format!("PICK f{a}"),
                     4 => format!("LEVEL f{a}"),
                     _ => {
-                        let k = self.rng.below(self.nv as u64 + 2);
-                        let args: Vec<String> = (0..k)
-                            .map(|_| format!("{}={}", self.rng.below(self.nv as u64), self.rng.below(2)))
-                            .collect();
+                        // every variable gets a value (in random order), some twice (last one counts)
+                        let mut vs: Vec<u32> = (0..self.nv).collect();
+                        for _ in 0..self.rng.below(3) {
+                            vs.push(self.rng.below(self.nv as u64) as u32);
+                        }
+                        for i in (1..vs.len()).rev() {
+                            vs.swap(i, self.rng.below(i as u64 + 1) as usize);
+                        }
+                        let args: Vec<String> = vs.iter().map(|v| format!("{v}={}", self.rng.below(2))).collect();
                         format!("EVAL f{a} {}", if args.is_empty() { "-".to_string() } else { args.join(",") })
                     }
                 };
@@ -787,12 +792,16 @@ fn gen_cases(tier: &str, seed: u64) {
             let nv = g.rng.range(2, 5) as u32;
             g.addvars(nv);
             let len = g.rng.range(20, if thorough { 140 } else { 90 });
-            let small = i % 4 == 3;
+            let small = i % 3 == 2;
             g.small = small;
             for _ in 0..len {
                 g.step();
             }
-            let cap = if small { g.rng.range(if kind == "zbdd" { nv as u64 + 3 } else { 6 }, 60) as usize } else { 1 << 16 };
+            let cap = if small {
+                (if kind == "zbdd" { nv as u64 + g.rng.range(1, 10) } else { g.rng.range(2, 20) }) as usize
+            } else {
+                1 << 16
+            };
             let threads = if i % 7 == 6 { 2 } else { 1 };
             g.finish(&format!("r{id}"), cap, threads);
         }
